@@ -236,6 +236,14 @@ func runC01(c *Ctx) error {
 		if err != nil {
 			return err
 		}
+		var probe struct {
+			Case map[string]interface{} `json:"case"`
+		}
+		if json.Unmarshal(b, &probe) == nil && probe.Case["directed"] != nil {
+			c01DirectedOnly = probe.Case
+			c01Directed(c)
+			return nil
+		}
 		if err := json.Unmarshal(b, &f); err != nil {
 			return err
 		}
@@ -245,6 +253,7 @@ func runC01(c *Ctx) error {
 		}
 		return nil
 	}
+	c01Directed(c)
 	// directed: a named fragment selecting an object field, spread at two places, each time followed by another
 	// fragment that selects the same alias with a sub-selection of its own: the fragment's selection is the first
 	// occurrence of two different merges (3 and 5 sub-selections: slices with spare capacity after parsing)
